@@ -164,7 +164,9 @@ def rule_2(ctx):
             depends = bool(ctl & val_names)
             n_exits += 1
             guard = next((ast.unparse(c.test) for c in conds if c.kind == 'if'), '?')
-            ctx.expect(not depends, n, f'{type(n).__name__.lower()} under `{guard}`',
+            depth = sum(1 for L in flow._enclosing_loops(n, ev) if flow.contains(outer, L) or L is outer)
+            where = {1: 'row loop', 2: 'cell loop'}.get(depth, f'loop depth {depth}')
+            ctx.expect(not depends, n, f'{type(n).__name__.lower()} out of the {where} depends on cell values',
                        f'range materialisation stops early depending on cell values (`{guard}`): cells after a '
                        f'run of blanks are dropped (=SUM(A1:DZ1) with only DY1 set gives 0)')
     # every member address is evaluated and kept
